@@ -1549,8 +1549,13 @@ bucket_popitem(Bucket* self, PyObject* args)
 
     key = Bucket_minKey(self, args); /* reuse existing empty tuple. */
     if (!key) {
-        PyErr_Clear();
-        PyErr_SetString(PyExc_KeyError, "popitem(): empty bucket.");
+        /* minKey() says ValueError for an empty container; anything else
+        * (the container could not be loaded, out of memory) is passed on.
+        */
+        if (PyErr_ExceptionMatches(PyExc_ValueError)) {
+            PyErr_Clear();
+            PyErr_SetString(PyExc_KeyError, "popitem(): empty bucket.");
+        }
         return NULL;
     }
 
